@@ -12,7 +12,7 @@ A different correct representation strategy is undecided (exit 2), not accused."
 import ast
 
 from gcmstatic import astx, rules, tm
-from gcmstatic.astx import Scope, txt, pat, match
+from gcmstatic.astx import Parents, Scope, txt, pat, match
 from gcmstatic.cfg import CFG
 
 EXPLANATION = __doc__
@@ -76,6 +76,20 @@ def run(ctx):
                         continue
                     if recv_self and not inside_cls:
                         continue  # another class's own attribute of the same name
+                    if inside_cls:
+                        # DrawSet's own method working on ANOTHER DrawSet (copy(), merge): reading is inside the
+                        # abstraction; a store must give the other object containers of its own
+                        if isinstance(n.ctx, ast.Load):
+                            continue
+                        st_ = Parents(fn.node).stmt_of(n)
+                        v_ = st_.value if isinstance(st_, ast.Assign) and len(st_.targets) == 1 and st_.targets[0] is n else None
+                        fresh = isinstance(v_, (ast.List, ast.Dict, ast.ListComp, ast.DictComp)) or \
+                            (isinstance(v_, ast.Call) and (txt(v_.func) in ("list", "dict", "copy.copy", "copy.deepcopy", "sorted") or (isinstance(v_.func, ast.Attribute) and v_.func.attr == "copy")))
+                        if fresh:
+                            continue
+                        outside += 1
+                        o.violated(fn, n, f"`{txt(st_) if st_ is not None else txt(n)}` gives another DrawSet a container that is not its own (shared or foreign): two sets then change together")
+                        continue
                     outside += 1
                     o.violated(fn, n, f"`{txt(n)}` reaches into DrawSet's private field {n.attr} from outside the class")
         # methods of DrawSet writing the fields other than add/remove/__init__
